@@ -878,8 +878,10 @@ def fam_c16(tier, seed):
     big.append([["B", "VOD", 0], ["B", "BARC", 0], ["B", "LLOY", 0], ["B", "AZN", 0], ["S", "VOD", 1], ["S", "BARC", 1], ["S", "LLOY", 1], ["S", "AZN", 1]])
     for sh in big:
         sks.append(mk(i, "q", sh, base=b, wit=5, mode="")); i += 1
-        if tier == "thorough":
-            sks.append(mk(i, "q", sh, base=b, wit=5, mode="Q")); i += 1
+    if tier == "thorough":
+        # the two-security ledgers again with every numeric field symbolic (matcher forks x gain signs x map orders)
+        for sh in sym_shapes[:4]:
+            sks.append(mk(i, "t", sh, base=b, wit=60)); i += 1
     return sks
 
 
@@ -888,7 +890,7 @@ SPECS["C16"] = dict(
     entry_points=["cgt_core::calculator::calculate (pools.into_values, matches_by_year traversal, disposal_map.into_iter)", "cgt_core::matcher::Matcher::{process, compute_cost_offsets} (ledgers.values)", "cgt_core::ordering::sort_by_date_ticker", "cgt_core::verif_map (hook, cfg cgt_verif)", "cgt_formatter_plain::format"],
     bounds=bounds_rel((
         "5 ledgers of two securities over two tax years (all-years report and year filter 2024) with every numeric field symbolic, and 3 ledgers of three securities / three tax years / up to 3 disposals per year with concrete numbers; at every traversal of a core map ALL permutations of its entries are explored (maps of up to 4 entries), and the resulting report is proved identical, in order and in every figure, to the one computed with insertion order",
-        "as quick with symbolic quantities on the three-security ledgers")),
+        "as quick plus the two-security ledgers with every numeric field symbolic")),
     assumptions=["built with the cfg-guarded hook (--cfg cgt_verif): crates/cgt-core/src/verif_map.rs replaces std::collections::HashMap in calculator.rs, matcher/mod.rs, matcher/bed_and_breakfast.rs; hash iteration order is the only source of cross-process variation in the core"],
     outside=["byte identity across processes and of PDF output (quantifies over OS-level executions)", "maps in cgt-money (FxCache: lookups only), cgt-converter (lookups/removals only), validation (lookups only)"])
 
